@@ -46,6 +46,7 @@ META = {
 }
 
 SPEC_RPC = "limits/MCRpcLimits.tla"
+SPEC_SH = "limits/MCShrexLimits.tla"
 
 
 # ----------------------------------------------------------------------------------------------- graph -> paths
@@ -185,7 +186,8 @@ def fold_behaviour(hist, quiet_of, stim_ops):
 
 
 def write_cfg(ctx, name, consts, body):
-    lines = ["CONSTANTS"] + ["  %s = %s" % (k, v) for k, v in consts.items()] + body
+    lines = ["CONSTANTS"] + [("  %s <- %s" % (k, v[2:].strip())) if isinstance(v, str) and v.startswith("<-") else ("  %s = %s" % (k, v))
+                             for k, v in consts.items()] + body
     p = os.path.join(ctx.work, name + ".cfg")
     open(p, "w").write("\n".join(lines) + "\n")
     return p
@@ -360,19 +362,133 @@ def rpc_plans(ctx, done):
     return plans, xcases
 
 
+# ----------------------------------------------------------------------------------------------- shrex
+SH_SAFETY = "TypeOK CountersExact MemoryExact WithinLimits QuiescentFree ExpiryGrantsNothing BucketKeptWhileNotFull"
+SH_STIM = ("open", "handle", "store", "finish", "remotereset", "tick")
+
+
+def sh_consts(**kw):
+    c = dict(Peers=tla_set([1, 2]), Protos=tla_set([1, 2]), Streams=tla_set([1, 2, 3]),
+             PeerIP="<- MCPeerIP", Need="<- MCNeed", ProtoLim="<- MCProtoLim", ProtoPeerLim="<- MCProtoPeerLim",
+             IP1='"x"', IP2='"y"', IP3='"lo"', IP4='"none"', Need1=4, Need2=1, ProtoLim1=2, ProtoLim2=3, ProtoPeerLim1=1,
+             ProtoPeerLim2=2, SvcLim=3, SvcPeerLim=2, SvcMem=5, SvcPeerMem=4, Burst=2, Rate=1, Grace=1, RateOn="TRUE",
+             Atomic="TRUE", CloseOnLimit="TRUE", WatchTime=0)
+    c.update(kw)
+    return c
+
+
+def sh_plan(name, c, paths):
+    npeers = c["Peers"].count(",") + 1
+    nprotos = c["Protos"].count(",") + 1
+    return {"name": name, "ips": [c["IP%d" % i].strip('"') for i in range(1, npeers + 1)],
+            "need": [int(c["Need%d" % i]) for i in range(1, nprotos + 1)],
+            "protoLim": [int(c["ProtoLim%d" % i]) for i in range(1, nprotos + 1)],
+            "protoPeerLim": [int(c["ProtoPeerLim%d" % i]) for i in range(1, nprotos + 1)],
+            "svcLim": int(c["SvcLim"]), "svcPeerLim": int(c["SvcPeerLim"]), "svcMem": int(c["SvcMem"]),
+            "svcPeerMem": int(c["SvcPeerMem"]), "burst": int(c["Burst"]), "rate": int(c["Rate"]), "rateOn": c["RateOn"] == "TRUE",
+            "paths": paths}
+
+
+BIG = dict(Need1=4, ProtoLim1=9, ProtoPeerLim1=9, SvcLim=9, SvcPeerLim=9, SvcMem=99, SvcPeerMem=99)
+
+
+def sh_jobs(ctx):
+    quick = ctx.quick
+    T = 600 if quick else 3000
+    J = []
+    one = tla_set([1])
+    # ---- every interleaving
+    J.append(Job("full", SPEC_SH, "sh_full_scopes", sh_consts(Atomic="FALSE", RateOn="FALSE", Streams=tla_set([1, 2, 3])),
+                 MC + ["NEXT MCNextNoWatch", "INVARIANTS " + SH_SAFETY, "PROPERTIES RefusedStreamEnds"], workers=4, timeout=T,
+                 coverage=not quick))
+    J.append(Job("full", SPEC_SH, "sh_full_rate",
+                 sh_consts(Atomic="FALSE", Peers=tla_set([1, 2, 3]), IP1='"x"', IP2='"x"', IP3='"y"', Protos=one, Streams=tla_set([1, 2]),
+                           WatchTime=3, **BIG),
+                 MC + ["NEXT MCNext", "INVARIANTS " + SH_SAFETY + " WindowBound",
+                       "PROPERTIES AddressesIndependent RefusedStreamEnds"], workers=4, timeout=T))
+    if not quick:
+        J.append(Job("full", SPEC_SH, "sh_full_all",
+                     sh_consts(Atomic="FALSE", Peers=tla_set([1, 2, 3]), IP1='"x"', IP2='"x"', IP3='"lo"', WatchTime=2),
+                     MC + ["NEXT MCNext", "INVARIANTS " + SH_SAFETY + " WindowBound",
+                           "PROPERTIES AddressesIndependent RefusedStreamEnds"], workers=6, timeout=T))
+    # ---- liveness
+    J.append(Job("live", SPEC_SH, "sh_live", sh_consts(Atomic="FALSE", Streams=tla_set([1, 2]), Protos=one, SvcLim=1, SvcMem=4),
+                 ["SPECIFICATION MCFairSpecNoWatch", "VIEW View", "PROPERTIES StreamsEnd ServiceSlotsComeBack", "CHECK_DEADLOCK FALSE"],
+                 workers=2, timeout=T, count=False))
+    # ---- defect configuration: a refused stream that is not reset keeps its counters
+    J.append(Job("defect", SPEC_SH, "sh_defect_noclose", sh_consts(Atomic="FALSE", CloseOnLimit="FALSE", Streams=tla_set([1, 2]), SvcLim=1),
+                 MC + ["NEXT MCNextNoWatch", "INVARIANTS CountersExact"], expect="CountersExact", workers=2, timeout=T, count=False))
+    # ---- serialised state graphs
+    replay = [("sh_replay_scope", sh_consts(RateOn="FALSE")),
+              ("sh_replay_rate", sh_consts(Peers=tla_set([1, 2, 3]), IP1='"x"', IP2='"x"', IP3='"lo"', Protos=one, Streams=tla_set([1, 2]), **BIG))]
+    if not quick:
+        replay.append(("sh_replay_all", sh_consts(Peers=tla_set([1, 2, 3]), IP1='"x"', IP2='"x"', IP3='"lo"')))
+        replay.append(("sh_replay_none", sh_consts(Peers=tla_set([1, 2, 3]), IP1='"x"', IP2='"y"', IP3='"none"', Protos=one, Burst=1,
+                                                   Streams=tla_set([1, 2]), **BIG)))
+    for name, consts in replay:
+        J.append(Job("replay", SPEC_SH, name, consts,
+                     ["INIT MCInit", "NEXT MCNextNoWatch", "VIEW ViewReplay", "ACTION_CONSTRAINT EdgeOut",
+                      "INVARIANTS " + SH_SAFETY + " InitOut AddrOut", "CHECK_DEADLOCK FALSE"], workers=1, timeout=T))
+    # ---- seeded simulation of a larger instance
+    J.append(Job("sim", SPEC_SH, "sh_sim0",
+                 sh_consts(Peers=tla_set([1, 2, 3, 4]), IP1='"x"', IP2='"x"', IP3='"y"', IP4='"lo"', Streams=tla_set(range(1, 7)),
+                           ProtoLim1=3, ProtoLim2=5, ProtoPeerLim1=2, ProtoPeerLim2=3, SvcLim=5, SvcPeerLim=3, SvcMem=9, SvcPeerMem=6,
+                           Burst=3, Rate=2),
+                 ["INIT MCInit", "NEXT MCSimNext", "INVARIANTS " + SH_SAFETY, "CHECK_DEADLOCK FALSE"], kind="sim", workers=1,
+                 num=60 if quick else 1000, depth=60, seed=ctx.seed + 7, timeout=T, count=False))
+    return J
+
+
+def sh_plans(ctx, done):
+    plans, acases = [], []
+    quiet = lambda p: p["quiet"]
+    for name, j in done.items():
+        if j.spec != SPEC_SH:
+            continue
+        r = j.res
+        if name == "sh_full_scopes" and r.ok and not ctx.quick:
+            ctx.require_coverage(r, ["Open", "Handle", "SetService", "RateCheck", "StoreAnswers", "Reserve", "Finish", "RemoteReset"])
+        if j.key == "replay" and r.ok:
+            try:
+                init_id, macro = fold_graph(r.printed.get("INIT", []), r.printed.get("EDGE", []), quiet, SH_STIM)
+                paths, total = cover_paths(init_id, macro)
+            except ValueError as ex:
+                ctx.inconclusive("cannot fold the state graph of %s: %s" % (name, ex))
+                continue
+            plans.append(sh_plan(name, j.consts, paths))
+            ctx.cover(shrex_graph_edges=total, shrex_cover_paths=len(paths))
+            ctx.log("%s: %d stimulus-level edges, %d states, %d covering paths, %d steps" % (
+                name, total, len(macro), len(paths), sum(len(p) for p in paths)))
+            acases = r.printed.get("ACASE", acases)
+        if j.kind == "sim":
+            behs = [fold_behaviour(h, quiet, SH_STIM) for h in sim_behaviours(ctx, j)]
+            behs = [b for b in behs if b]
+            if not behs:
+                ctx.inconclusive("simulation %s produced no behaviours (log %s)" % (name, r.log_path))
+                continue
+            plans.append(sh_plan(name, j.consts, behs))
+            ctx.cover(shrex_sim_behaviours=len(behs))
+    return plans, acases
+
+
 # ----------------------------------------------------------------------------------------------- entry
 def run(ctx):
     ctx.assume("small scope: <= 4 addresses, <= 4 requests inside the server at once, bucket <= 3, time in whole refill units")
     ctx.assume("x/time/rate, golang-lru and the libp2p resource manager are exercised as shipped (versions of /repo/go.mod)")
-    jobs = rpc_jobs(ctx)
+    only = os.environ.get("VERIF_LIMITS_ONLY", "")      # development aid: "rpc" | "shrex"
+    jobs = (rpc_jobs(ctx) if only != "shrex" else []) + (sh_jobs(ctx) if only != "rpc" else [])
     done = run_jobs(ctx, jobs, pool=6)
     plans, xcases = rpc_plans(ctx, done)
-    if not plans:
+    splans, acases = sh_plans(ctx, done)
+    if not plans and not splans:
         ctx.inconclusive("no replay plan could be generated")
         return
     plan_path = os.path.join(ctx.work, "rpc_plans.json")
     json.dump({"plans": plans, "xcases": xcases}, open(plan_path, "w"))
-    rep = ctx.go_driver("limits", env={"VERIF_RPC_PLANS": plan_path}, timeout=900 if ctx.quick else 3000)
+    splan_path = os.path.join(ctx.work, "shrex_plans.json")
+    json.dump({"plans": splans, "acases": acases}, open(splan_path, "w"))
+    rep = ctx.go_driver("limits", env={"VERIF_RPC_PLANS": plan_path, "VERIF_SHREX_PLANS": splan_path},
+                        timeout=900 if ctx.quick else 3000)
     cnt = rep.get("counters") or {}
     summ = rep.get("summary") or {}
     ctx.cover(evaluations=int(cnt.get("rpc_steps", 0)) + int(cnt.get("shrex_steps", 0)),
